@@ -32,6 +32,9 @@ def self_fields_read(v, param=1):
 def from_builder(F, fn, v):
     """v == <X>.<fields> with X = build/hit_windows(difficulty(attributes(MAP), DIFF)).
     returns (final, field path, map_ok, diff_ok) or None"""
+    # a private carrier of the builder output (`TaikoHitWindows::new(difficulty, map).great`) is read through
+    v = prov.inline_all(F, v, depth=2, _seen=(fn.path,), only=lambda f_: not f_.get('trait') and '{closure' not in (f_.get('path') or '') and
+                        (f_.get('impl_adt') or '') != B and not (f_.get('impl_adt') or '').endswith(('Beatmap', 'Difficulty', 'DifficultyValues')))
     v = prov.strip(v, names=set())
     if v[0] == 'call' and v[1].get('name') in ('unwrap_or', 'unwrap_or_default') and v[2]:
         v = prov.strip(v[2][0], names=set())
@@ -169,7 +172,16 @@ def run(ctx):
             ctx.violation('C17-R4', 'anchor-missing:setter:' + x, 'BeatmapAttributesBuilder::%s not found' % x)
             continue
         ctx.saw(setter)
-        d = delta_fields(prov.prov_of(setter).return_value(), 1)
+        srv = prov.prov_of(setter).return_value()
+        st_ = prov.strip(srv, names=set())
+        if st_[0] == 'call' and st_[1].get('local') and (st_[1].get('impl_adt') or '') == B and st_[2] and st_[2][0] == ('param', 1):
+            # `self.with_custom(Attribute::Ar, value, with_mods)`: specialise the shared helper on the constant selector
+            h_ = F.fn(st_[1].get('path') or '')
+            sp_ = arms.specialized_paths_ex(h_, st_[2]) if h_ is not None else None
+            if sp_ and len(sp_) == 1 and not sp_[0][0]:
+                # the writes made on the one path that remains for this selector
+                srv = ('update', ('param', 1), {(f_,): v_ for f_, v_ in arms.path_field_writes(h_, sp_[0][2], 1, st_[2]).items()})
+        d = delta_fields(srv, 1)
         wrote = sorted(d) if d is not None else None
         if wrote is None or len(wrote) != 1:
             ctx.violation('C17-R4', x + ':setter', 'BeatmapAttributesBuilder::%s must write exactly one slot; writes %s' % (x, wrote), setter.where())
